@@ -20,6 +20,21 @@ def generate(rng, tier, rep):
         if rng.random() < 0.3 and c['layers']:
             c['layers'][0]['hooks']['tearDown'] = ['notimpl']
         cases.append(c)
+    # a search path given relative to the directory the run is started in, a test that changes the working directory, and
+    # layers resumed in subprocesses afterwards: the children look where the run was started
+    for k in range({'quick': 8, 'thorough': 60, 'search': 4}[tier]):
+        c = worldcase.gen_world(rng, faults=False, rich=False, opts=rng.choice([[], [], ['-j2'], ['--repeat', '2']]))
+        if not c['layers']:
+            c['layers'] = worldcase.gen_layers(rng, 2, faults=False)
+        for L in c['layers']:
+            L['hooks']['tearDown'] = ['notimpl'] if rng.random() < 0.7 else ['ok']
+            L['hooks'].setdefault('setUp', ['ok'])
+        c['tests'] = [{'layer': j} for j in range(len(c['layers']))] + [{'layer': rng.randrange(len(c['layers']))} for _ in range(2)] + [{'layer': None}]
+        rng.choice(c['tests'])['meddle'] = ['chdir']
+        c['relpath'] = True
+        c['via'] = rng.choice(['run_internal', 'run'])
+        cases.append(c)
+        rep.count('relative search path, working directory changed by a test')
     for c in cases:
         count_dist(rep, c)
     return cases
